@@ -66,7 +66,7 @@ Lemma fields_uhunk_header v c :
   fields (uhunk_header v c) =
   [s_atat; uspan v s_minus (LStart c) (LEnd c); uspan v s_plus (RStart c) (REnd c); s_atat].
 Proof.
-  unfold fields, uhunk_header.
+  unfold fields, uhunk_header, unified_lspan_lo, unified_lspan_hi, unified_rspan_lo, unified_rspan_hi.
   assert (Hm : no_space s_minus) by (repeat constructor).
   assert (Hp : no_space s_plus) by (repeat constructor).
   assert (Ha : no_space s_atat) by (repeat constructor).
@@ -80,7 +80,7 @@ Qed.
 (* ---------------------------------------------------------------- range spellings read back *)
 Lemma read_uspan_uspan v tag s e :
   uspan_omitted_count_zero v = false \/ e - s <> 1 ->
-  read_uspan v tag (uspan v tag s e) = Some (s, e).
+  read_uspan v tag (uspan v tag s e) = Some (s, e - s).
 Proof.
   intros H. unfold read_uspan, uspan, uspan_bare, uspan_single, uspan_first_v, uspan_first, uspan_count, omitted_count.
   destruct (e - s =? 1) eqn:E1.
@@ -89,20 +89,28 @@ Proof.
     f_equal. f_equal. lia.
   - apply Z.eqb_neq in E1. rewrite parse_span_pair.
     destruct (uspan_empty_names_next_line v); cbn [negb andb].
-    + f_equal. f_equal. lia.
+    + reflexivity.
     + destruct (e - s =? 0) eqn:E0.
       * apply Z.eqb_eq in E0. f_equal. f_equal; lia.
-      * f_equal. f_equal. lia.
+      * reflexivity.
+Qed.
+
+(* the chunk built from the parsed (start, count) pairs *)
+Lemma uchunk_of_ranges es ls le rs re :
+  uchunk_of es ls (le - ls) rs (re - rs) = mkChunk es ls le rs re.
+Proof.
+  unfold uchunk_of, read_uchunk_lstart, read_uchunk_lend, read_uchunk_rstart, read_uchunk_rend.
+  f_equal; lia.
 Qed.
 
 (* on the code as it stands a one-line range comes back empty (F5) *)
 Lemma read_uspan_pinned_one_line tag s :
-  read_uspan pinned tag (uspan pinned tag s (s + 1)) = Some (s, s).
+  read_uspan pinned tag (uspan pinned tag s (s + 1)) = Some (s, 0).
 Proof.
   unfold read_uspan, uspan, uspan_bare, uspan_single, omitted_count, pinned, parse_span_omitted_hi.
   cbn [uspan_omitted_count_zero uspan_empty_names_next_line].
   replace (s + 1 - s =? 1) with true by (symmetry; apply Z.eqb_eq; lia).
-  rewrite parse_span_single. cbn. f_equal. f_equal. lia.
+  rewrite parse_span_single. cbn. reflexivity.
 Qed.
 
 (* ---------------------------------------------------------------- hunk bodies *)
@@ -280,7 +288,7 @@ Proof.
   replace (read_uchunk_min_fields _ _ _) with false by (unfold read_uchunk_min_fields; reflexivity).
   rewrite read_uspan_uspan by (destruct Hv as [Hv|[Hv _]]; [left; exact Hv | right; exact Hv]).
   rewrite read_uspan_uspan by (destruct Hv as [Hv|[_ Hv]]; [left; exact Hv | right; exact Hv]).
-  rewrite read_body_edits.
+  rewrite read_body_edits. unfold norm_chunk. rewrite <- uchunk_of_ranges.
   destruct rest as [|l rest]; [reflexivity|].
   destruct Hrest as (t & ->). reflexivity.
 Qed.
@@ -395,12 +403,13 @@ Section Header.
       apply nf_app; [exact H1|]. apply nf_cons; [discriminate|].
       apply nf_app; [apply uspan_nf; exact H2|]. apply nf_cons; [discriminate|].
       apply nf_app; [apply uspan_nf; exact H3|]. apply nf_cons; [discriminate | exact H1].
-    - unfold chunk_lines_nf in Hc. induction Hc as [|e es (Hx & Hy) _ IH]; [constructor|].
+    - unfold chunk_lines_nf in Hc. induction Hc as [|e es He _ IH]; [constructor|].
       cbn [flat_map]. apply Forall_app. split; [|exact IH].
-      unfold uedit_lines.
+      unfold uedit_lines. unfold edit_lines_nf in He.
       assert (Hp : forall b, b <> 10%N -> newline_free [b])
         by (intros b Hb [H|[]]; apply Hb; exact H).
-      destruct (eop e); try apply Forall_app; try split; apply write_lines_nf;
+      destruct (eop e); [| | |destruct He as (Hx & Hy)];
+        try apply Forall_app; try split; apply write_lines_nf;
         first [apply Hp; discriminate | assumption].
   Qed.
 
